@@ -73,6 +73,20 @@ def range2 (a b : Int) : List Int := (List.range (b - a).toNat).map fun (k : Nat
 /-- `[x] * n` -/
 def replicate {α : Type} (n : Int) (x : α) : List α := List.replicate n.toNat x
 
+/-- insertion into a list of (key, value) pairs kept ascending in the key; a value already present is dropped (`set`) -/
+def insertKV (kx : Int × Int) : List (Int × Int) → List (Int × Int)
+  | [] => [kx]
+  | ky :: rest =>
+    if kx.2 = ky.2 then ky :: rest
+    else if kx.1 < ky.1 then kx :: ky :: rest
+    else ky :: insertKV kx rest
+
+/-- `sorted(set(xs), key=key)`.  Python orders distinct values with *equal* keys by the iteration order of the set
+    (unspecified); here they keep first-occurrence order.  The bridge theorems only use it with a key proved injective. -/
+def sortedSetBy (key : Int → PyM Int) (xs : List Int) : PyM (List Int) :=
+  (xs.mapM fun x => key x >>= fun k => pure (k, x)) >>= fun kxs =>
+    pure ((kxs.foldl (fun acc kx => insertKV kx acc) []).map Prod.snd)
+
 /-- `origins` as a list of `Origin` handles (index = position) -/
 def origins : List Int := Tables.ORIGIN_IDS.map Int.ofNat
 
